@@ -740,6 +740,100 @@ def run_gen(ctx, J, mc):
 
 
 # ---------------------------------------------------------------------------------------------------------------
+# operator matrix (added because of seeded change C02: a fused float compare-and-branch that is wrong only for NaN operands)
+
+OPS_TYPES = {
+    "Float64": ["0.0", "-0.0", "1.0", "-1.0", "1.5", "2.5", "0.0 / 0.0", "-(0.0 / 0.0)", "1.0 / 0.0", "-1.0 / 0.0", "1.0e308", "5.0e-324", "-5.0e-324", "0.1 + 0.2", "0.3"],
+    "Float32": ["0.0f32", "-0.0f32", "1.0f32", "-1.0f32", "1.5f32", "0.0f32 / 0.0f32", "-(0.0f32 / 0.0f32)", "1.0f32 / 0.0f32", "-1.0f32 / 0.0f32", "3.0e38f32",
+                "1.0e-45f32", "0.1f32 + 0.2f32", "0.3f32"],
+    "Int64": ["0", "1", "-1", "2", "9223372036854775807", "-9223372036854775807 - 1", "4294967296", "-4294967296", "2147483648", "255"],
+    "Int32": ["0i32", "1i32", "-1i32", "2i32", "2147483647i32", "-2147483647i32 - 1i32", "65536i32", "-65536i32", "128i32", "255i32"],
+    "UInt8": ["0u8", "1u8", "2u8", "127u8", "128u8", "129u8", "200u8", "254u8", "255u8"],
+    "Char": ["'a'", "'b'", "'A'", "'z'", "'0'", "' '", "'ß'", "'中'", "'😀'", "'~'", "'é'"],
+    "String": ["\"\"", "\"a\"", "\"b\"", "\"ab\"", "\"aa\"", "\"A\"", "\"a \"", "\"ß\"", "\"中\"", "\"abcdefghijklmnopqrstuvwxyz\"", "\"abcdefghijklmnopqrstuvwxyZ\""],
+    "Bool": ["true", "false"],
+}
+OPS_CMP = [("lt", "<"), ("le", "<="), ("gt", ">"), ("ge", ">="), ("eq", "=="), ("ne", "!=")]
+OPS_CTX = [
+    ("if", "if a OP b { 1 } else { 0 }"),
+    ("let", "let c = a OP b; if c { 1 } else { 0 }"),
+    ("ifnot", "if !(a OP b) { 0 } else { 1 }"),
+    ("while", "let mut r = 0; while a OP b { r = 1; break; } r"),
+    ("and", "if a OP b && t { 1 } else { 0 }"),
+    ("or", "if f || a OP b { 1 } else { 0 }"),
+    ("and2", "if t && a OP b { 1 } else { 0 }"),
+    ("call", "pass_bool(a OP b)"),
+    ("guard", "match 0 { _ if a OP b => 1, _ => 0 }"),
+    ("value", "(if a OP b { 2 } else { 3 }) * 5 - 10 + (if b OP a { 7 } else { 0 })"),
+    ("loop", "let mut n = 0; let mut r = 0; while n < 3 { if a OP b { r = r + 1; } n = n + 1; } r"),
+]
+
+
+def ops_program(ty, rng):
+    vals = list(OPS_TYPES[ty])
+    rng.shuffle(vals)
+    cmps = OPS_CMP if ty != "Bool" else OPS_CMP[4:]
+    L = ["fn pass_bool(x: Bool): Int64 { if x { 1 } else { 0 } }",
+         "fn show(x: Int64) { print(\"${x} \"); }"]
+    calls = []
+    for oname, op in cmps:
+        for cname, body in OPS_CTX:
+            f = "f_%s_%s" % (oname, cname)
+            L.append("fn %s(a: %s, b: %s, t: Bool, f: Bool): Int64 { %s }" % (f, ty, ty, body.replace("OP", op)))
+            L.append("fn run_%s_%s(vals: Array[%s], t: Bool, f: Bool) {" % (oname, cname, ty))
+            L.append("    print(\"%s %s %s: \");" % (ty, op, cname))
+            L.append("    let mut i = 0;")
+            L.append("    while i < vals.size() {")
+            L.append("        let mut j = 0;")
+            L.append("        while j < vals.size() { show(%s(vals(i), vals(j), t, f)); j = j + 1; }" % f)
+            L.append("        i = i + 1;")
+            L.append("    }")
+            L.append("    println(\"\");")
+            L.append("}")
+            calls.append("run_%s_%s(vals, std::argc() < 100i32, std::argc() > 100i32);" % (oname, cname))
+    L.append("fn main() {")
+    L.append("    let vals = Array[%s]::new(%s);" % (ty, ", ".join(vals)))
+    for c in calls:
+        L.append("    " + c)
+    L.append("}")
+    return "\n".join(L) + "\n"
+
+
+def run_ops(ctx, J):
+    progs = []
+    for i, ty in enumerate(OPS_TYPES):
+        progs.append(("ops_%s" % ty, ty, ops_program(ty, ctx.rng("ops", i))))
+    built, d = progrun.compile_all(sname(ctx, "c02ops"), [(nm, src) for nm, ty, src in progs])
+    ctx.c02_dirs.append(d)
+    cwd = os.path.join(d, "cwd")
+    os.makedirs(cwd, exist_ok=True)
+    for nm, ty, src in progs:
+        b = built[nm]
+        if b.errors:
+            if any(r.timeout for r in b.errors.values()):
+                ctx.inconc("ops %s: compile watchdog" % nm)
+            elif len(b.errors) == len(CFGS):
+                ctx.inconc("ops %s: rejected by both generators (template error): %s" % (nm, progrun.compile_error_text(list(b.errors.values())[0])[-200:]))
+            else:
+                compile_problem(ctx, "ops", "ops:" + ty, nm, b.errors, b.exes, src)
+            continue
+
+        def runner(cfg, to, attempt, b=b, nm=nm):
+            return run_capped([b.exes[(cfg, None)]], to, cwd=cwd, outdir=d, tag="%s.%s.%d" % (nm, cfg, attempt))
+        res = {cfg: runner(cfg, 60, 0) for cfg in CFGS}
+        nvals = len(OPS_TYPES[ty])
+        ncmp = (len(OPS_CMP) if ty != "Bool" else 2) * len(OPS_CTX)
+        ctx.count("ops_programs")
+        ctx.count("ops_comparisons_evaluated", ncmp * nvals * nvals)
+        out = res["cannon"][0].stdout
+        if out.count(b"\n") != ncmp:
+            ctx.inconc("ops %s: expected %d output lines, saw %d" % (nm, ncmp, out.count(b"\n")))
+        J.judge("ops", nm, "ops:" + ty, res, runner, files={"program.dora": src}, timeout=60, cmd="%s.<cannon|boots>.default" % nm)
+        for line in out.splitlines()[:ncmp]:
+            ctx.observe(("ops", line.split(b":")[0]))
+
+
+# ---------------------------------------------------------------------------------------------------------------
 # memcheck sample (thorough)
 
 MC_BAD = re.compile(rb"==\d+== (Invalid (read|write|free)[^\n]*|Jump to the invalid address[^\n]*|Mismatched free[^\n]*|Process terminating with default action of signal (\d+)[^\n]*)")
@@ -807,7 +901,9 @@ def run(ctx):
         return only is None or w in only
     ctx.rule = ("case = one program + one input run on both code generators (std: one call of one instantiated std signature with one "
                 "combination of boundary values; corpus: one repository program with its annotated arguments/flags; mutant: one "
-                "single-token mutant of a repository program; gen: one generated case; unittests: the package's unit-test image); "
+                "single-token mutant of a repository program; gen: one generated case; unittests: the package's unit-test image; ops: one "
+                "type's comparison-operator matrix -- every operator x 11 syntactic contexts (if/while/&&/||/let/call/guard/value) x all "
+                "ordered pairs of boundary values incl. NaN, signed zeros, infinities, extremes); "
                 "non-trivial = both executables were built and at least one of them ran to a conclusion that was compared; "
                 "distinct = distinct (call template, value labels) / program / (program, mutation) / IR shape")
     ctx.assumptions = [
@@ -842,11 +938,14 @@ def run(ctx):
     if on("gen"):
         run_gen(ctx, J, mc)
         lap("gen")
+    if on("ops"):
+        run_ops(ctx, J)
+        lap("ops")
     if on("memcheck") and mc:
         run_memcheck(ctx, J, mc)
         lap("memcheck")
     cleanup(ctx, *ctx.c02_dirs)
     J.finish()
     if only is None:
-        ctx.required_counters = ["std_cases", "corpus_programs_run", "mutants_run", "gen_cases"]
+        ctx.required_counters = ["std_cases", "corpus_programs_run", "mutants_run", "gen_cases", "ops_comparisons_evaluated"]
     ctx.min_distinct = 20
